@@ -281,6 +281,38 @@ func checkC16(c *Case, s *Stats) error {
 			}
 			s.class("rejected_init_leaves_array_unchanged")
 		}
+		// "build nothing": a fresh generic array on which an Init was REJECTED is
+		// still a fresh array: a valid Init with another element type must work
+		err = guard("valid Init after a rejected Init on a fresh generic array", func() error {
+			ga := &array.Array{}
+			var e error
+			switch kind {
+			case "U16", "I16":
+				e = ga.Init(idx, make([]uint16, len(raws)))
+			case "U32", "I32":
+				e = ga.Init(idx, make([]int32, len(raws)))
+			case "U64", "I64":
+				e = ga.Init(idx, make([]uint64, len(raws)))
+			default:
+				e = ga.Init(idx, make([]arrStruct, len(raws)))
+			}
+			if e == nil {
+				return viol("invalid-accepted", "Array.Init accepted invalid input")
+			}
+			if e2 := ga.Init([]int32{2, 70}, []uint32{0xdeadbeef, 7}); e2 != nil {
+				return viol("rejected-init-left-residue", "a valid Init after a rejected Init on the same fresh array failed: %v", e2)
+			}
+			v, ok := ga.Get(2)
+			v2, ok2 := ga.Get(70)
+			_, ok3 := ga.Get(3)
+			if !ok || !ok2 || ok3 || !reflect.DeepEqual(v, uint32(0xdeadbeef)) || !reflect.DeepEqual(v2, uint32(7)) {
+				return viol("rejected-init-left-residue", "after a rejected Init and a valid Init: Get(2)=(%v,%v) Get(70)=(%v,%v) Get(3) found=%v", v, ok, v2, ok2, ok3)
+			}
+			return nil
+		})
+		if err != nil {
+			return err
+		}
 		if wantLen {
 			s.class("invalid=length")
 		}
